@@ -162,6 +162,14 @@ def make_texts(ctx):
     return out
 
 
+def first_diff(a, b):
+    la, lb = a.split('\n'), b.split('\n')
+    for k, (x, y) in enumerate(zip(la, lb)):
+        if x != y:
+            return 'line %d: model %r, implementation %r' % (k + 1, x[:120], y[:120])
+    return 'length differs: model %d lines, implementation %d lines' % (len(la), len(lb))
+
+
 def strip_hash(t):
     """drop (shapehash N) from a parsed <tables>"""
     return [x for x in t if not (isinstance(x, list) and x and x[0] == 'shapehash')]
@@ -196,6 +204,28 @@ def literal_orders(tabs):
     return om, osub
 
 
+def shape_groups(script, command='cmd'):
+    """oracle: the order of the shape groups, read from the function names of Rust's script:
+    a _<cmd>_subword_shape_N function opens group N, each following wrapper that calls it joins it;
+    a wrapper that calls _<cmd>_subword directly is a group of its own."""
+    import re
+    groups = []
+    rx = re.compile(r'^(?:function )?_%s_subword_(shape_)?(\d+)(?: \(\) \{| \{)?$' % re.escape(command), re.M)
+    pos = [(m.start(), m.group(1) is not None, int(m.group(2))) for m in rx.finditer(script)]
+    for k, (at, is_shape, n) in enumerate(pos):
+        if is_shape:
+            groups.append(('shape', n, []))
+            continue
+        end = pos[k + 1][0] if k + 1 < len(pos) else len(script)
+        body = script[at:end]
+        m = re.search(r'_%s_subword_shape_(\d+) ' % re.escape(command), body.split('\n}', 1)[0].split('\nend', 1)[0])
+        if m and groups and groups[-1][0] == 'shape' and groups[-1][1] == int(m.group(1)):
+            groups[-1][2].append(n)
+        else:
+            groups.append(('single', None, [n]))
+    return [g[2] for g in groups]
+
+
 def fix_unreferenced(dfa_text):
     return dfa_text.replace('(unreferenced)', '(dfa (start 0) (trans) (acc) (inputs) (subdfas))')
 
@@ -221,11 +251,19 @@ def run(ctx, res):
             om, osub = literal_orders(tabs)
             reqs.append('tables %s %s %s %s' % (sh, fix_unreferenced(st['MIN'][4:-1]), sexp.dump(om), sexp.dump(osub)))
             keys.append((i, sh))
+            if sh == 'bash':
+                text = emitlib.script_of(st.get('SCRIPT'))
+                if text is not None:
+                    first = text.split('\n', 1)[0]
+                    reqs.append('emitbash "cmd" %s %s %s %s %s' % (sexp.quote(first[2:]), fix_unreferenced(st['MIN'][4:-1]),
+                                                                  sexp.dump(om), sexp.dump(osub), sexp.dump(shape_groups(text))))
+                    keys.append((i, 'bash-script'))
     outs = model.run(reqs)
     by = dict(zip(keys, outs))
     timing['model_s'] = round(time.time() - t0, 1)
     res.rule = 'random grammars (see generator G) x 4 shells; non-trivial = accepted grammars with at least one within-word automaton or command'
     nontrivial = set()
+    script_ties = 0
     for i, d in enumerate(dumps):
         for sh in SHELLS:
             st = d[sh]
@@ -253,10 +291,22 @@ def run(ctx, res):
                     dict(replay, kind='tie-T1', stage='tables', model=sexp.dump(mine)[:3000], impl=sexp.dump(rust)[:3000]),
                     found_input=False))
                 continue
+            if sh == 'bash' and (i, 'bash-script') in by:
+                mo = sexp.parse(by[(i, 'bash-script')])
+                text = emitlib.script_of(st.get('SCRIPT'))
+                if mo[0] != 'ok' or str(mo[1]) != text or mo[2] != '1':
+                    why = 'model says %s' % sexp.dump(mo)[:100] if mo[0] != 'ok' else (
+                        'orders/grouping not valid' if mo[2] != '1' else first_diff(str(mo[1]), text))
+                    res.violations.append(report.Violation(
+                        'tie T1 broken at stage script (bash): ' + why,
+                        dict(replay, kind='tie-T1', stage='script', why=why), found_input=False))
+                    continue
+                script_ties += 1
             res.traces_validated += 1
             if len(field(rust, 'subwords')) > 1 or len(field(rust, 'commands')) > 1:
                 nontrivial.add((i, sh))
     res.nontrivial = len(nontrivial)
     res.extra['accepted'] = accepted
+    res.extra['bash_scripts_byte_identical'] = script_ties
     res.extra['grammars'] = len(texts)
     res.extra['timing'] = timing
